@@ -9,13 +9,12 @@ import (
 	"os"
 	"runtime"
 	"runtime/debug"
+	"strconv"
 	"strings"
 	"sync"
 	"sync/atomic"
 	"time"
 )
-
-const hangAfter = 20 * time.Second
 
 // ChildMain reads one Spec per line on stdin and writes one Outcome per line on stdout.
 func ChildMain() {
@@ -80,6 +79,7 @@ func stacks(gs []Goroutine) []string {
 
 // timedClose runs closeFn, measuring its latency; a Close that does not return within hangAfter is a hang.
 func timedClose(oc *Outcome, rec *Rec, co *coord, baseG map[string]bool, side string, closeFn func()) {
+	hangAfter := time.Duration(oc.Spec.hangAfterMs()) * time.Millisecond
 	ret := make(chan struct{})
 	var ms float64
 	var blocked []Goroutine
@@ -94,6 +94,20 @@ func timedClose(oc *Outcome, rec *Rec, co *coord, baseG map[string]bool, side st
 		blocked = blockedLib(baseG, side)
 		close(ret)
 	}()
+	if d := os.Getenv("LIFE_DUMP_MS"); d != "" { // debugging aid: where is a slow Close waiting?
+		if n, err := strconv.Atoi(d); err == nil {
+			select {
+			case <-ret:
+			case <-time.After(time.Duration(n) * time.Millisecond):
+				for _, g := range dumpGoroutines() {
+					if strings.Contains(g.Stack, libPrefix) {
+						fmt.Fprintln(os.Stderr, g.Stack)
+						fmt.Fprintln(os.Stderr)
+					}
+				}
+			}
+		}
+	}
 	select {
 	case <-ret:
 		oc.CloseMs = ms
@@ -167,7 +181,7 @@ func scenarioServer(sp Spec, oc *Outcome) {
 		oc.SetupErr = err.Error()
 		return
 	}
-	oc.BoundMs = float64(2*sp.WriteTimeout + 3000)
+	oc.BoundMs = sp.boundMs()
 	co := newCoord()
 	stopAll := make(chan struct{})
 	var written atomic.Int64
@@ -200,7 +214,10 @@ func scenarioServer(sp Spec, oc *Outcome) {
 	var wgPeers sync.WaitGroup
 	for i, ps := range sp.Peers {
 		if ps.Kind == "raw" {
-			r := &rawPeer{spec: ps, addr: fx.addr, co: co, delay: time.Duration(rng.IntN(300)) * time.Microsecond, seed: sp.Seed + uint64(i)}
+			r := &rawPeer{spec: ps, addr: fx.addr, co: co, delay: time.Duration(rng.IntN(300)) * time.Microsecond, seed: sp.Seed + uint64(i), flowWait: 1500 * time.Millisecond}
+			if sp.Procs == 1 || sp.Hammer {
+				r.flowWait = 6 * time.Second
+			}
 			raws = append(raws, r)
 			continue
 		}
@@ -348,7 +365,7 @@ func scenarioServer(sp Spec, oc *Outcome) {
 		close(co.closeDone)
 		// then the server itself is closed (this is what the trace's closeCalled / closeReturned refer to)
 		co2 := newCoord()
-		oc2 := &Outcome{}
+		oc2 := &Outcome{Spec: sp}
 		timedClose(oc2, rec, co2, baseG, "server", fx.srv.Close)
 		if oc2.Hang {
 			oc.Hang, oc.HangDump = true, oc2.HangDump
@@ -414,12 +431,27 @@ func scenarioServer(sp Spec, oc *Outcome) {
 	time.Sleep(5 * time.Millisecond)
 	oc.LeftFinal = stacks(waitNoLib(baseG, nil, 2*time.Second))
 	oc.FdFinal = waitFdBaseline(baseFd, time.Second)
+	finalRecheck(oc, baseG, baseFd)
 	oc.Events, oc.Counts, oc.Dropped = rec.Snapshot()
 	oc.Counts["written"] = int(written.Load())
 	for _, p := range peers {
 		if len(p.errs) > 0 && p.idx == 0 {
 			oc.Notes = append(oc.Notes, "peer0: "+strings.Join(p.errs, "; "))
 		}
+	}
+}
+
+// finalRecheck: something is left after everything was closed — look again after 8 more seconds: what is
+// still there then is not scheduling noise.
+func finalRecheck(oc *Outcome, baseG map[string]bool, baseFd map[int]string) {
+	if len(oc.LeftFinal) == 0 && len(oc.FdFinal) == 0 {
+		return
+	}
+	left := stacks(waitNoLib(baseG, nil, 8*time.Second))
+	fds := waitFdBaseline(baseFd, 100*time.Millisecond)
+	if len(left) > 0 || len(fds) > 0 {
+		oc.Persistent = true
+		oc.LeftFinal, oc.FdFinal = left, fds
 	}
 }
 
